@@ -130,6 +130,19 @@ theorem vfind_some {vs : List V} {n : Str} {i : Nat} (h : vfind vs n = some i) (
   simp [show i ≠ 0 by omega, this, hk]
 
 
+theorem vget_of_le {vs : List V} {p : Nat} (h0 : p ≠ 0) (hle : p ≤ vs.length) : ∃ v, vget vs p = some v := by
+  unfold vget
+  simp only [h0, if_false]
+  exact ⟨vs[p - 1]'(by omega), by simp⟩
+
+theorem le_of_vget {vs : List V} {p : Nat} {v : V} (h : vget vs p = some v) : p ≠ 0 ∧ p ≤ vs.length := by
+  unfold vget at h
+  by_cases h0 : p = 0
+  · simp [h0] at h
+  · simp only [h0, if_false] at h
+    have := (List.getElem?_eq_some_iff.1 h).1
+    exact ⟨h0, by omega⟩
+
 theorem SamePD.refl (v : V) : SamePD v v := ⟨rfl, rfl, rfl, rfl⟩
 theorem SamePD.trans {a b c : V} (h1 : SamePD a b) (h2 : SamePD b c) : SamePD a c :=
   ⟨h2.1.trans h1.1, h2.2.1.trans h1.2.1, h2.2.2.1.trans h1.2.2.1, h2.2.2.2.trans h1.2.2.2⟩
